@@ -706,6 +706,14 @@ e = some(where (p.eft == allow))
 m = (g(r.sub, p.sub) || g2(r.sub, p.sub)) && r.obj == p.obj && r.act == p.act
 `
 
+func sortedKeys(m map[string]bool) []string {
+	var out []string
+	for k := range m {
+		out = append(out, k)
+	}
+	return sortedStrings(out)
+}
+
 func c16TwoDefs(c *Ctx, n int) {
 	for k := 0; k < n; k++ {
 		mm, _ := model.NewModelFromString(c16TwoDefText)
@@ -718,6 +726,7 @@ func c16TwoDefs(c *Ctx, n int) {
 		var trace []string
 		isRole := map[string]bool{}
 		cand := map[string]bool{}
+		parents := map[string]map[string][]string{"g": {}, "g2": {}} // definition -> role -> its direct users
 		for _, gt := range []string{"g", "g2"} {
 			for i := c.Rng.Intn(nn); i > 0; i-- {
 				u, r := names[c.Rng.Intn(nn)], names[c.Rng.Intn(nn)]
@@ -725,7 +734,42 @@ func c16TwoDefs(c *Ctx, n int) {
 					trace = append(trace, fmt.Sprintf("%s(%s,%s)", gt, u, r))
 					isRole[r] = true
 					cand[u] = true
+					parents[gt][r] = append(parents[gt][r], u)
 				}
+			}
+		}
+		// implicit users of a role: per role definition, everybody who reaches the role in THAT
+		// definition's graph; the union over the definitions (compared as a set)
+		for _, role := range names {
+			want := map[string]bool{}
+			for _, gt := range []string{"g", "g2"} {
+				seen := map[string]bool{role: true}
+				queue := []string{role}
+				for len(queue) > 0 {
+					x := queue[0]
+					queue = queue[1:]
+					for _, u := range parents[gt][x] {
+						if !seen[u] {
+							seen[u] = true
+							want[u] = true
+							queue = append(queue, u)
+						}
+					}
+				}
+			}
+			got, err := e.GetImplicitUsersForRole(role)
+			gs := map[string]bool{}
+			for _, x := range got {
+				gs[x] = true
+			}
+			same := err == nil && len(gs) == len(want)
+			for x := range want {
+				if !gs[x] {
+					same = false
+				}
+			}
+			if !same {
+				c.Direct(fmt.Sprintf("c16.twodefs.%d", k), fmt.Sprintf("two role definitions: GetImplicitUsersForRole(%s)=%v but the users reaching it in g or in g2 are %v", role, got, sortedKeys(want)), strings.Join(trace, " "))
 			}
 		}
 		perms := [][]string{{"data1", "read"}, {"data2", "read"}}
